@@ -317,6 +317,9 @@ class GenericPlainRegistry(Generic[QuantityT, UnitT], metaclass=RegistryMeta):
         #: Map contexts to RegistryCache
         self._cache = RegistryCache()
 
+        #: True when a definition has replaced an existing one since the cache was built.
+        self._cache_outdated = False
+
         self._initialized = False
 
     def _init_dynamic_classes(self) -> None:
@@ -480,6 +483,9 @@ class GenericPlainRegistry(Generic[QuantityT, UnitT], metaclass=RegistryMeta):
         else:
             self._helper_dispatch_adder(definition)
 
+        if self._cache_outdated:
+            self._rebuild_cache_after_redefinition()
+
     ############
     # Adders
     # - we first provide some helpers that deal with repetitive task.
@@ -542,6 +548,10 @@ class GenericPlainRegistry(Generic[QuantityT, UnitT], metaclass=RegistryMeta):
                 raise RedefinitionError(key, type(value))
             elif self._on_redefinition == "warn":
                 logger.warning(f"Redefining '{key}' ({type(value)})")
+            if self._initialized:
+                # Root units, factors and dimensionalities derived from the
+                # replaced definition are no longer valid.
+                self._cache_outdated = True
 
         target_dict[key] = value
         if casei_target_dict is not None:
@@ -603,7 +613,15 @@ class GenericPlainRegistry(Generic[QuantityT, UnitT], metaclass=RegistryMeta):
         for definition in self._def_parser.iter_parsed_project(parsed_project):
             self._helper_dispatch_adder(definition)
 
+        if self._cache_outdated:
+            self._rebuild_cache_after_redefinition()
+
         return parsed_project
+
+    def _rebuild_cache_after_redefinition(self) -> None:
+        """Drop everything that was derived from a definition that has been replaced."""
+        self._cache_outdated = False
+        self._build_cache()
 
     def _build_cache(self, loaded_files=None) -> None:
         """Build a cache of dimensionality and plain units."""
